@@ -201,6 +201,19 @@ CHECKS['C17'] = dict(
     technique='table-generic induction + generated tables + identity-aware correspondence + loader oracle',
     design='4/C17')
 
+CHECKS['C18'] = dict(
+    text='Kernel-checked for every interpretation of the operations: expression-level ANF (hoisted statements + rewritten expression) '
+         'preserves world, result and exception under a decidable order guard; ANF shape, freshness / rendering of temporaries and '
+         'rejection of lazy constructs are proved in full; dispatch table, default configuration and gensym parameters are translated '
+         'from anf.py on every run (tables_ok). Statement-level composition and compound statements are not proved, only tied '
+         '(exact-output correspondence of the executable model with anf.transform on ~1100 cases per run) and differentially tested on '
+         'CPython with tracer objects in every operand position. Outside the guard the property is false: known findings, three with '
+         'refuted witnesses.',
+    note=NOTE_BASE + 'Assumes names are atoms (no rebinding by operand operations), user names not of shape tmp_<digits>; BoolOp / '
+         'IfExp / lambda opaque; the model semantics is validated through the refuted witnesses and the exact-output tie, not separately.',
+    technique='nested-inductive model + monadic event semantics + two-phase commutation proof + generated table + tracer-object oracle',
+    design='4/C18')
+
 NOT_YET = {}
 
 
